@@ -37,7 +37,7 @@ func (c Case) Text() string {
 var candidates = []string{"z", "m", "a", "b", "c", "x", "y", "n", "f", "k", "e", "err", "more", "r", "acc", "go", "v", "zz", "zz-unbound", "tmp"}
 
 func genCase(t *rapid.T) Case {
-	p := gen.Program(t, gen.PFlags{Cond: true, Try: true, Sentinels: true, Budget: 60})
+	p := gen.Program(t, gen.PFlags{Cond: true, Try: true, Sentinels: true, Macros: true, QQ: true, Budget: 60})
 	us := []string{}
 	for u := range p.Uses {
 		us = append(us, u)
